@@ -615,16 +615,22 @@ func mergeStats(c *vf.Ctx, st *stats) {
 	}
 	for _, v := range st.viols {
 		// sent as a record: the parent sorts them (shortest reproducer first) before reporting
-		c.Emit("viol", pendingViol{v.v.fp, v.v.what, v.cs})
+		c.Emit("viol", pendingViol{FP: v.v.fp, What: v.v.what, Case: v.cs})
 	}
 }
 
 // violations of the sequential part are reported shortest history first, so that the
 // replay files kept per fingerprint are the minimal reproducers.
 type pendingViol struct {
-	FP   string  `json:"fp"`
-	What string  `json:"what"`
-	Case seqCase `json:"case"`
+	FP   string          `json:"fp"`
+	What string          `json:"what"`
+	Case seqCase         `json:"case"`
+	Raw  json.RawMessage `json:"raw,omitempty"` // a case of another kind (cross-key), already encoded
+}
+
+func jsonRoundTrip(v any) (json.RawMessage, error) {
+	b, err := json.Marshal(v)
+	return b, err
 }
 
 var (
@@ -644,7 +650,11 @@ func flushViols(c *vf.Ctx) {
 		return strings.Join(x.Ops, "") < strings.Join(y.Ops, "")
 	})
 	for _, p := range pendingViols {
-		c.Violation(p.FP, p.What, p.Case)
+		if p.Raw != nil {
+			c.Violation(p.FP, p.What, p.Raw)
+		} else {
+			c.Violation(p.FP, p.What, p.Case)
+		}
 	}
 	pendingViols = nil
 }
@@ -1071,6 +1081,7 @@ func concurrentChild(c *vf.Ctx) {
 		c.DistinctHash("concurrent_shapes", uint64(g*100+gens))
 	}
 	c.Count("concurrent_rounds", rounds)
+	multiKeyRounds(c, race)
 }
 
 func child(c *vf.Ctx) {
@@ -1079,6 +1090,8 @@ func child(c *vf.Ctx) {
 		concurrentChild(c)
 	case "seq":
 		seqChild(c)
+	case "xkey":
+		xkeyChild(c)
 	case "replay":
 		c.Replay = c.ChildArgs[0]
 		replayChild(c)
@@ -1089,7 +1102,9 @@ func child(c *vf.Ctx) {
 // the process under the crash model).
 func replay(c *vf.Ctx) {
 	var cs seqCase
-	if err := c.LoadReplay(&cs); err != nil || cs.Interval0 == 0 {
+	var xk xkeyCase
+	c.LoadReplay(&xk)
+	if err := c.LoadReplay(&cs); !xk.XKey && (err != nil || cs.Interval0 == 0) {
 		fmt.Fprintln(os.Stderr, "replay: not a sequential C07 case (concurrent findings are re-run by seed):", err)
 		os.Exit(3)
 	}
@@ -1103,6 +1118,17 @@ func replay(c *vf.Ctx) {
 }
 
 func replayChild(c *vf.Ctx) {
+	var xk xkeyCase
+	if c.LoadReplay(&xk); xk.XKey {
+		r := runXKey(xk)
+		c.Count("evaluations", 1)
+		fmt.Printf("replayed trace: %s\n", r.trace)
+		if r.viol != nil {
+			xk.Trace = r.trace
+			c.Violation(r.viol.fp, r.viol.what, xk)
+		}
+		return
+	}
 	var cs seqCase
 	if err := c.LoadReplay(&cs); err != nil {
 		os.Exit(3)
@@ -1122,7 +1148,31 @@ func run(c *vf.Ctx) {
 		return
 	}
 	c.SetRule("sequential: every history over {Next, Release, Restart(interval in 1,2,3,7), Back (the key is handed back to an earlier object that was cleanly Released; objects keep their own interval; only one object ever holds a lease)} up to the exhaustive length, for each initial interval, is executed without a crash and with an injected fault at every store call it makes: a crash before / after applying it (panic, object abandoned, fresh NewSequence on the same store) or a store error (sentinel returned, not applied, the same object keeps being used) (pairs of crash points for the shorter lengths; longer histories sampled from the seed with 1-3 crashes); one evaluation = one execution of a (history, crash plan); distinct_nontrivial = distinct crash-free histories in which at least two numbers were issued with a crash/restart/release between the first and the last of them. concurrent: one evaluation = one Next call made while 2-16 goroutines share the Sequence")
+	// several keys in one process, renewals nested inside another key's Set window (deterministic);
+	// runs next to the sequential children
+	xkDone := make(chan struct{})
+	go func() {
+		defer close(xkDone)
+		res := c.RunChild(vf.ChildOpts{Name: "xkey", Timeout: 10 * time.Minute})
+		if res.TimedOut || res.ExitCode != 0 {
+			c.Count("xkey_child_deaths", 1)
+			c.Note(fmt.Sprintf("cross-key child died (%s, exit code %d, deadlock=%v) in %q (stderr: %s)", res.Fatal, res.ExitCode, res.Deadlock, res.LastMark, res.StderrPath))
+			c.Inconclusive(fmt.Sprintf("cross-key child died (%s) in %q", res.Fatal, res.LastMark))
+			return
+		}
+		pendingMu.Lock()
+		defer pendingMu.Unlock()
+		for _, r := range res.Records {
+			if r.Kind == "viol" {
+				var p pendingViol
+				if json.Unmarshal(r.V, &p) == nil {
+					pendingViols = append(pendingViols, p)
+				}
+			}
+		}
+	}()
 	sequentialPart(c)
+	<-xkDone
 	flushViols(c)
 	c.SetExhaustive(true)
 
@@ -1159,6 +1209,8 @@ func run(c *vf.Ctx) {
 	c.Require("generations_on_reused_object", 10)
 	c.Require("late_release_calls_while_other_owner_holds_lease", 1000)
 	c.Require("early_opened_successor_used", 1000)
+	c.Require("xkey_runs_with_nested_renewal", 10000)
+	c.Require("multikey_next_calls", 10000)
 	c.Require("runs_object_reused_after_release", 500)
 	c.Require("race_children", 1)
 	c.Assume("a crash of the owning process is modelled by a panic out of the store call followed by abandoning the Sequence object; mapdb applies Set atomically")
